@@ -55,13 +55,15 @@ func (l *Lexer) nextInsideToken() token.Token {
 	var tok token.Token
 
 	l.skipWhitespace()
+	// every token is stamped with the line on which it begins
+	line := l.curLine
 
 	switch l.ch {
 	case '=':
 		if l.peekChar() == '=' {
 			ch := l.ch
 			l.readChar()
-			tok = token.Token{Type: token.EQ, Literal: string(ch) + string(l.ch), LineNumber: l.curLine}
+			tok = token.Token{Type: token.EQ, Literal: string(ch) + string(l.ch), LineNumber: line}
 		} else {
 			tok = l.newToken(token.ASSIGN)
 		}
@@ -71,7 +73,7 @@ func (l *Lexer) nextInsideToken() token.Token {
 			tokSplit := strings.Split(tok.Literal, ".")
 			switch {
 			case len(tokSplit) > 2:
-				return l.newIllegalTokenLiteral(token.ILLEGAL, tok.Literal)
+				return token.Token{Type: token.ILLEGAL, Literal: tok.Literal, LineNumber: line}
 			case len(tokSplit) == 2:
 				tok.Type = "FLOAT"
 			default:
@@ -86,14 +88,14 @@ func (l *Lexer) nextInsideToken() token.Token {
 	case '&':
 		if l.peekChar() == '&' {
 			l.readChar()
-			tok = token.Token{Type: token.AND, Literal: "&&", LineNumber: l.curLine}
+			tok = token.Token{Type: token.AND, Literal: "&&", LineNumber: line}
 			break
 		}
 		tok = l.newToken(token.ILLEGAL)
 	case '|':
 		if l.peekChar() == '|' {
 			l.readChar()
-			tok = token.Token{Type: token.OR, Literal: "||", LineNumber: l.curLine}
+			tok = token.Token{Type: token.OR, Literal: "||", LineNumber: line}
 			break
 		}
 		tok = l.newToken(token.ILLEGAL)
@@ -103,7 +105,7 @@ func (l *Lexer) nextInsideToken() token.Token {
 		if l.peekChar() == '=' {
 			ch := l.ch
 			l.readChar()
-			tok = token.Token{Type: token.NOT_EQ, Literal: string(ch) + string(l.ch), LineNumber: l.curLine}
+			tok = token.Token{Type: token.NOT_EQ, Literal: string(ch) + string(l.ch), LineNumber: line}
 		} else {
 			tok = l.newToken(token.BANG)
 		}
@@ -115,7 +117,7 @@ func (l *Lexer) nextInsideToken() token.Token {
 		if l.peekChar() == '>' {
 			l.inside = false
 			l.readChar()
-			tok = token.Token{Type: token.E_END, Literal: "%>", LineNumber: l.curLine}
+			tok = token.Token{Type: token.E_END, Literal: "%>", LineNumber: line}
 			break
 		}
 		tok = l.newToken(token.ILLEGAL)
@@ -126,32 +128,32 @@ func (l *Lexer) nextInsideToken() token.Token {
 			switch l.peekChar() {
 			case '#':
 				l.readChar()
-				tok = token.Token{Type: token.C_START, Literal: "<%#", LineNumber: l.curLine}
+				tok = token.Token{Type: token.C_START, Literal: "<%#", LineNumber: line}
 			case '=':
 				l.readChar()
-				tok = token.Token{Type: token.E_START, Literal: "<%=", LineNumber: l.curLine}
+				tok = token.Token{Type: token.E_START, Literal: "<%=", LineNumber: line}
 			default:
-				tok = token.Token{Type: token.S_START, Literal: "<%", LineNumber: l.curLine}
+				tok = token.Token{Type: token.S_START, Literal: "<%", LineNumber: line}
 			}
 			break
 		}
 		if l.peekChar() == '=' {
 			l.readChar()
-			tok = token.Token{Type: token.LTEQ, Literal: "<=", LineNumber: l.curLine}
+			tok = token.Token{Type: token.LTEQ, Literal: "<=", LineNumber: line}
 			break
 		}
 		tok = l.newToken(token.LT)
 	case '~':
 		if l.peekChar() == '=' {
 			l.readChar()
-			tok = token.Token{Type: token.MATCHES, Literal: "~=", LineNumber: l.curLine}
+			tok = token.Token{Type: token.MATCHES, Literal: "~=", LineNumber: line}
 			break
 		}
 		tok = l.newToken(token.MATCHES)
 	case '>':
 		if l.peekChar() == '=' {
 			l.readChar()
-			tok = token.Token{Type: token.GTEQ, Literal: ">=", LineNumber: l.curLine}
+			tok = token.Token{Type: token.GTEQ, Literal: ">=", LineNumber: line}
 			break
 		}
 		tok = l.newToken(token.GT)
@@ -195,20 +197,20 @@ func (l *Lexer) nextInsideToken() token.Token {
 		if isLetter(l.ch) {
 			tok.Literal = l.readIdentifier()
 			tok.Type = token.LookupIdent(tok.Literal)
-			tok.LineNumber = l.curLine
+			tok.LineNumber = line
 			return tok
 		} else if isDigit(l.ch) {
 			tok.Literal = l.readNumber()
 			tokSplit := strings.Split(tok.Literal, ".")
 			switch {
 			case len(tokSplit) > 2:
-				return l.newIllegalTokenLiteral(token.ILLEGAL, tok.Literal)
+				return token.Token{Type: token.ILLEGAL, Literal: tok.Literal, LineNumber: line}
 			case len(tokSplit) == 2:
 				tok.Type = "FLOAT"
 			default:
 				tok.Type = "INT"
 			}
-			tok.LineNumber = l.curLine
+			tok.LineNumber = line
 			return tok
 		} else {
 			tok = l.newToken(token.ILLEGAL)
@@ -216,7 +218,7 @@ func (l *Lexer) nextInsideToken() token.Token {
 	}
 
 	l.readChar()
-	tok.LineNumber = l.curLine
+	tok.LineNumber = line
 	return tok
 }
 
